@@ -399,6 +399,7 @@ def plan(tier: str) -> dict:
         "gc_objects_checked": 10000,
         "del_io_inside_a_journal": 150,
         "del_io_outside_after_a_journal": 150,
+        "client_calls_checked": 3000,
     }
     for key in mon.TABLE:
         floors["calls:" + key] = 15
